@@ -119,12 +119,12 @@ CHECKS = {
     "C08": {
         "pkg": "c08", "level": "exploration",
         "manifest": {
-            "text": "model-based histories with a lock flag over a real shim agent; the keyring behind the lock-emulating proxy stays inspectable, so 'changes nothing' is checked on the underlying identities directly and on the in-memory table through the post-unlock view",
-            "note": "sequential histories; Forward / Extension are outside the lock statement and are not judged while locked",
-            "technique": "stateful property-based testing (rapid) against a reference model + injected lock/unlock refusals",
+            "text": "model-based histories with a lock flag over a real shim agent; the keyring behind the lock-emulating proxy stays inspectable, so 'changes nothing' is checked on the underlying identities directly and on the in-memory table through the post-unlock view; a second sub-check lets 1..4 goroutines list / list signers / sign while another client cycles lock - unlock: every concurrent observation must be the complete unlocked view or the locked answer, never a part of the view",
+            "note": "Forward / Extension are outside the lock statement and are not judged while locked; the concurrent sub-check samples schedules",
+            "technique": "stateful property-based testing (rapid) against a reference model + injected lock/unlock refusals + generated lock/unlock races with an all-or-nothing view oracle",
         },
         "assumptions": ["the proxy emulates ssh-agent lock semantics (empty list, failure for everything else, passphrase compare)"],
-        "subchecks": [R("TestC08Lock", 400, 2000, qs=2)],
+        "subchecks": [R("TestC08Lock", 400, 2000, qs=2), R("TestC08LockRace", 40, 400, qs=2, ts=8)],
     },
     "C09": {
         "pkg": "c09", "level": "exploration",
@@ -152,13 +152,14 @@ CHECKS = {
     "C11": {
         "pkg": "c11", "level": "exploration", "race": True,
         "manifest": {
-            "text": "generated concurrent programs (2..16 goroutines, direct calls and served connections, both modes, purging inside the race window) run under the race detector; every request carries a unique tag so that crossed replies are visible; mutations follow per-goroutine life cycles of disjoint keys, which makes the set of sequential outcomes a single state that the final keyring and listing are compared with; small programs over SHARED keys (hardware-certificate registration racing with remove / remove-all) are judged by an exhaustive search for a sequential order that explains every caller's observation and the final state against a pure model of the two tables; fixed signers / extension / forward storms target the two places the property names",
+            "text": "generated concurrent programs (2..16 goroutines, direct calls and served connections, both modes, purging inside the race window) run under the race detector; every request carries a unique tag so that crossed replies are visible; mutations follow per-goroutine life cycles of disjoint keys, which makes the set of sequential outcomes a single state that the final keyring and listing are compared with; small programs over SHARED keys (hardware-certificate registration racing with remove / remove-all) are judged by an exhaustive search for a sequential order that explains every caller's observation and the final state against a pure model of the two tables; fixed signers / extension / forward storms target the two places the property names; one request answered by the underlying agent only after seconds (touch / PIN prompt) with other clients queued behind it must not shift anybody's replies",
             "note": "schedules are sampled, not enumerated; the race detector reports any unsynchronised pair that executes, independent of timing, which is why it is the main oracle; signing through Signer objects returned by Signers() is outside the listed operations and not generated",
             "technique": "generated concurrent programs (rapid) + Go race detector + tag matching + order-independent final-state oracle + sequential-explanation search against a reference model",
         },
         "assumptions": ["a program that does not finish within 60 s is a deadlock (operations take milliseconds)", "GORACE=halt_on_error=1: a race report ends the process, the journaled program is the replay"],
         "subchecks": [
             E("TestC11SignersStorm", quick={"shards": 1, "timeout": 600}, thorough={"shards": 1, "timeout": 900}),
+            E("TestC11SlowUpstream", quick={"shards": 1, "timeout": 600}, thorough={"shards": 1, "timeout": 900}),
             R("TestC11Concurrent", 40, 250, qs=2, quick_extra={"timeout": 600}, thorough_extra={"timeout": 1500}),
             R("TestC11Sequential", 150, 1500, qs=2, ts=8, quick_extra={"timeout": 600}, thorough_extra={"timeout": 1500}),
         ],
